@@ -167,6 +167,31 @@ Definition C01_component_statement : Prop :=
       option_map qproj (i_qty i) = option_map denote_qty (cs_qty c) /\
       option_map text_trimmed (i_note i) = option_map (fun n => clean (toks_text n)) (cs_note c).
 
+(* proved part of the component statement: an ingredient in braces form (name, then a printed
+   quantity or blank braces), no modifiers / alias / note, followed by any continuation that does
+   not open a note.  The other forms (single word, modifiers, alias, note, cookware, timer) are
+   covered by the correspondence and the monitor only. *)
+Theorem C01_component_roundtrip_partial :
+  forall (U : N -> ucls) (cfg : pcfg) (name : list ptok) (q : option qspec) (tp : qtape)
+         (inner k : list ptok) (off : N) (ev : list pevent),
+    adjacent_ok U (print_igr_braces name q tp inner ++ k) = true ->
+    p_strict_escape cfg = false -> igr_name_ok name = true -> igr_inner_ok cfg q tp inner = true ->
+    match k with t :: _ => tk_eqb (fst t) KOpenParen = false | [] => True end ->
+    exists ts i st,
+      lex_at U (unlex (print_igr_braces name q tp inner ++ k)) off = Some ts /\
+      ingredient_p cfg {| b_all := ts; b_done := []; b_rest := ts; b_evs := ev |} = Done (Some (EvIngredient i), st) /\
+      b_rest st = place (off + blen (unlex (print_igr_braces name q tp inner))) k /\ b_evs st = ev /\
+      text_trimmed (i_name i) = clean (toks_text name) /\ i_alias i = None /\ i_mods i = 0 /\
+      i_inter i = None /\ i_note i = None /\
+      option_map qproj (i_qty i) = option_map denote_qty q.
+Proof.
+  intros U cfg name q tp inner k off ev Hadj Hs Hn Hi Hk.
+  destruct (ingredient_print cfg name q tp inner k off ev Hs Hn Hi Hk) as (i & st & H).
+  exists (place off (print_igr_braces name q tp inner ++ k)), i, st.
+  split; [apply lex_unlex; exact Hadj | exact H].
+Qed.
+Print Assumptions C01_component_roundtrip_partial.
+
 (* document level, on the pull parser: a document is a list of blocks, printed one per line group
    and separated by blank lines; its events, spans erased, are the intended ones.  (The recipe
    level - Model/Analysis.v applied to these events equals the denotation - is what
@@ -315,6 +340,12 @@ Example C01_value_hypotheses_satisfiable :
   (adjacent_ok Ug (print_qty q1 tape1) && qty_wf cfg_all q1 tape1 && qty_wf cfg_none q1 tape1 &&
    adjacent_ok Ug (print_qty q2 tape1) && qty_wf cfg_all q2 tape1 && qty_wf cfg_none q2 tape1 &&
    adjacent_ok Ug (print_qty q3 tape1) && qty_wf cfg_all q3 tape1 && negb (qty_wf cfg_none q3 tape1)) = true.
+Proof. vm_compute. reflexivity. Qed.
+
+Example C01_component_hypotheses_satisfiable :
+  (adjacent_ok Ug (print_igr_braces [(KWord, [97]); sp; (KWord, [98])] (Some q1) tape1 [] ++ [sp; (KWord, [99])]) &&
+   igr_name_ok [(KWord, [97]); sp; (KWord, [98])] && igr_inner_ok cfg_all (Some q1) tape1 [] &&
+   igr_inner_ok cfg_none None tape1 [sp]) = true.
 Proof. vm_compute. reflexivity. Qed.
 
 Example C01_number_hypotheses_satisfiable :
